@@ -188,6 +188,7 @@ class GridFlow(WidgetWrap[Pile], WidgetContainerMixin, WidgetContainerListConten
         if not self.contents:
             # nothing to re-size, and no focus position to keep
             self._cell_width = width
+            self._invalidate()
             return
         focus_position = self.focus_position
         self.contents = [(w, (WHSettings.GIVEN, width)) for (w, options) in self.contents]
